@@ -219,7 +219,7 @@ Theorem C19_fun2core_wc_size : forall codata cur k U t cont st s st',
 Proof. exact sz_wc. Qed.
 Print Assumptions C19_fun2core_wc_size.
 
-(* whole programs in which main is not called (since fix <commitmain> of /repo a program that calls main gets one more
+(* whole programs in which main is not called (since fix f929eb7 of /repo a program that calls main gets one more
    definition, the entry point  main<n>(params) { main(params, mu~x. exit x) }, whose 4 + #params nodes the bound does not
    count when the parameters never occur in the source; for such programs the sizes are checked per case only), all
    definitions incl. the lifted share_* ones.  fun_occ p = the largest number of
